@@ -501,6 +501,11 @@ class Verifier:
             st.become(m)
         if z3.is_true(go):
             return v2
+        if not is_and and isinstance(first, SV) and isinstance(first.t, OptT):
+            # `x or default`: when x is kept it is truthy, hence not None
+            r0 = ite(go, v2, strip_opt(first))
+            if r0 is not None:
+                return r0
         r = ite(go, v2, first)
         if r is None:
             # differing types: fall back to Bool if only truthiness could matter
